@@ -49,3 +49,10 @@ template int c10_ref_vertex<Shape::Hypercube<3>>(int, int);
 template int c10_ref_vertex<Shape::Simplex<1>>(int, int);
 template int c10_ref_vertex<Shape::Simplex<2>>(int, int);
 template int c10_ref_vertex<Shape::Simplex<3>>(int, int);
+
+// boundary facet re-orientation (CongruencyMapping::flip, CongruencySampler::orientation)
+#include <kernel/geometry/facet_flipper.hpp>
+template class FEAT::Geometry::FacetFlipper<Shape::Hypercube<2>>;
+template class FEAT::Geometry::FacetFlipper<Shape::Hypercube<3>>;
+template class FEAT::Geometry::FacetFlipper<Shape::Simplex<2>>;
+template class FEAT::Geometry::FacetFlipper<Shape::Simplex<3>>;
